@@ -113,27 +113,39 @@ def buildGraph (ti : TyInfo) (funcs : List CP) (hasInit : Bool) : RGraph :=
   let aUp := availUp funcs
   let lastStatic := lastIdx funcs fun f => (f.group == .staticGroup || f.group == .invokeGroup) && !f.reorder
   let finalFunc := lastIdx funcs fun f => f.group == .finalGroup
-  (enumL funcs).foldl (fun g (i, fm) => g.addProvider ti funcs aDown aUp lastStatic finalFunc i fm)
+  (List.range funcs.length).foldl (fun g i => g.addProvider ti funcs aDown aUp lastStatic finalFunc i (funcs.getD i default))
     { n := funcs.length, counter := funcs.length + 1 }
 
-abbrev Nodes := List RNode
+/-- a map from node index to a set of node indices, total: absent keys read as the empty set.
+    (Go indexes a slice of `counter` nodes, never out of range.)  Strict data, so that the compiled
+    driver does not re-evaluate closures; `get_set` is the only fact the proofs use. -/
+abbrev NMap := List (Nat × List Nat)
+def NMap.get (m : NMap) (k : Nat) : List Nat := (m.lookup k).getD []
+def NMap.set (m : NMap) (k : Nat) (v : List Nat) : NMap := (k, v) :: m
 
-def Nodes.upd (ns : Nodes) (i : Nat) (f : RNode → RNode) : Nodes := ns.set i (f (ns.getD i default))
-def Nodes.at (ns : Nodes) (i : Nat) : RNode := ns.getD i default
+structure Nodes where
+  before : NMap := []
+  after : NMap := []
+  weakBefore : NMap := []
+  weakAfter : NMap := []
+deriving Repr, Inhabited
 
 /-- reorder.go:217-255 -/
 def buildNodes (g : RGraph) : Nodes :=
-  let ns : Nodes := List.replicate g.counter {}
-  let ns := g.strong.foldl (fun ns (p : Nat × Nat) =>
-    (ns.upd p.2 fun nd => { nd with before := setIns nd.before p.1 }).upd p.1 fun nd => { nd with after := setIns nd.after p.2 }) ns
-  let ns := g.weak.foldl (fun ns (p : Nat × Nat) =>
-    (ns.upd p.2 fun nd => { nd with weakBefore := setIns nd.weakBefore p.1 }).upd p.1 fun nd => { nd with weakAfter := setIns nd.weakAfter p.2 }) ns
-  g.weak.foldl (fun ns (p : Nat × Nat) =>
-    if !(ns.at p.1).weakBefore.contains p.2 then ns else
-    let ns := ns.upd p.2 fun nd => { nd with weakBefore := setDel nd.weakBefore p.1 }
-    let ns := ns.upd p.1 fun nd => { nd with weakBefore := setDel nd.weakBefore p.1 }
-    let ns := ns.upd p.1 fun nd => { nd with weakAfter := setDel nd.weakAfter p.2 }
-    ns.upd p.2 fun nd => { nd with weakAfter := setDel nd.weakAfter p.2 }) ns
+  let ns : Nodes := {}
+  let ns := g.strong.foldl (fun (ns : Nodes) (p : Nat × Nat) =>
+    { ns with before := ns.before.set p.2 (setIns (ns.before.get p.2) p.1),
+              after := ns.after.set p.1 (setIns (ns.after.get p.1) p.2) }) ns
+  let ns := g.weak.foldl (fun (ns : Nodes) (p : Nat × Nat) =>
+    { ns with weakBefore := ns.weakBefore.set p.2 (setIns (ns.weakBefore.get p.2) p.1),
+              weakAfter := ns.weakAfter.set p.1 (setIns (ns.weakAfter.get p.1) p.2) }) ns
+  g.weak.foldl (fun (ns : Nodes) (p : Nat × Nat) =>
+    if !(ns.weakBefore.get p.1).contains p.2 then ns else
+    let wb := ns.weakBefore.set p.2 (setDel (ns.weakBefore.get p.2) p.1)
+    let wb := wb.set p.1 (setDel (wb.get p.1) p.1)
+    let wa := ns.weakAfter.set p.1 (setDel (ns.weakAfter.get p.1) p.2)
+    let wa := wa.set p.2 (setDel (wa.get p.2) p.2)
+    { ns with weakBefore := wb, weakAfter := wa }) ns
 
 /-- a heap entry: (priority, index) -/
 abbrev RHeap := List (Nat × Nat)
@@ -154,14 +166,21 @@ def heapPop (h : RHeap) : Option (Nat × RHeap) :=
   | none => none
   | some m => some (m.2, h.erase m)
 
-structure Topo where
+/-- what `topo.run` reads but never writes -/
+structure TopoS where
   n : Nat
   isReorder : Nat → Bool
   outOf : Nat → List Ty        -- noNoType(flows[outputParams]) of provider i
   recvOf : Nat → List Ty
   downTypes : List (Ty × Nat)
   upTypes : List (Ty × Nat)
-  nodes : Nodes
+  before : NMap
+  weakBefore : NMap
+
+/-- what `topo.run` changes -/
+structure Topo where
+  after : NMap
+  weakAfter : NMap
   cannotReorder : List Nat
   unblocked : RHeap := []
   weakBlocked : RHeap := []
@@ -169,53 +188,55 @@ structure Topo where
   out : List Nat := []
   fuelOut : Bool := false
 
-def Topo.pushU (x : Topo) (i : Nat) : Topo := { x with unblocked := (prio x.n x.isReorder i, i) :: x.unblocked }
-def Topo.pushW (x : Topo) (i : Nat) : Topo := { x with weakBlocked := (prio x.n x.isReorder i, i) :: x.weakBlocked }
+def Topo.pushU (s : TopoS) (x : Topo) (i : Nat) : Topo := { x with unblocked := (prio s.n s.isReorder i, i) :: x.unblocked }
+def Topo.pushW (s : TopoS) (x : Topo) (i : Nat) : Topo := { x with weakBlocked := (prio s.n s.isReorder i, i) :: x.weakBlocked }
 
 /-- reorder.go `release` -/
-def Topo.release (x : Topo) (n i : Nat) : Topo :=
-  if n ≥ x.n then x.pushU n else
-  let x := { x with nodes := x.nodes.upd n fun nd => { nd with after := setDel nd.after i, weakAfter := setDel nd.weakAfter i } }
-  if (x.nodes.at n).after.isEmpty then
-    if (x.nodes.at n).weakAfter.isEmpty then x.pushU n else x.pushW n
+def Topo.release (s : TopoS) (x : Topo) (n i : Nat) : Topo :=
+  if n ≥ s.n then x.pushU s n else
+  let x := { x with after := x.after.set n (setDel (x.after.get n) i), weakAfter := x.weakAfter.set n (setDel (x.weakAfter.get n) i) }
+  if (x.after.get n).isEmpty then
+    if (x.weakAfter.get n).isEmpty then x.pushU s n else x.pushW s n
   else x
 
 /-- reorder.go `releaseNode` -/
-def Topo.releaseNode (x : Topo) (i : Nat) : Topo :=
-  let x := (x.nodes.at i).weakBefore.foldl (fun (x : Topo) n =>
-    { x with nodes := x.nodes.upd n fun nd => { nd with weakAfter := setDel nd.weakAfter i } }) x
-  (x.nodes.at i).before.foldl (fun x n => x.release n i) x
+def Topo.releaseNode (s : TopoS) (x : Topo) (i : Nat) : Topo :=
+  let x := (s.weakBefore.get i).foldl (fun (x : Topo) n => { x with weakAfter := x.weakAfter.set n (setDel (x.weakAfter.get n) i) }) x
+  (s.before.get i).foldl (fun x n => x.release s n i) x
 
 /-- reorder.go `releaseProvider` -/
-def Topo.releaseProvider (x : Topo) (i : Nat) : Topo :=
-  let x := (x.outOf i).foldl (fun x t => match x.downTypes.lookup t with | some num => x.release num i | none => x) x
-  (x.recvOf i).foldl (fun x t => match x.upTypes.lookup t with | some num => x.release num i | none => x) x
+def Topo.releaseProvider (s : TopoS) (x : Topo) (i : Nat) : Topo :=
+  let x := (s.outOf i).foldl (fun x t => match s.downTypes.lookup t with | some num => x.release s num i | none => x) x
+  (s.recvOf i).foldl (fun x t => match s.upTypes.lookup t with | some num => x.release s num i | none => x) x
 
 /-- reorder.go `processOne` -/
-def Topo.processOne (x : Topo) (i : Nat) (release : Bool) : Topo :=
+def Topo.processOne (s : TopoS) (x : Topo) (i : Nat) (release : Bool) : Topo :=
   if x.done.contains i then x else
   let x := { x with done := i :: x.done }
-  if i > x.n then (if release then x.releaseNode i else x) else
+  if i > s.n then (if release then x.releaseNode s i else x) else
   let x := { x with out := x.out ++ [i] }
-  if !release then x.releaseNode i
-  else (x.releaseNode i).releaseProvider i
+  if !release then x.releaseNode s i
+  else (x.releaseNode s i).releaseProvider s i
 
 /-- reorder.go `topo.run`, the loop -/
-def Topo.loop : Nat → Topo → Topo
+def Topo.loop (s : TopoS) : Nat → Topo → Topo
   | 0, x => { x with fuelOut := true }
   | fuel + 1, x =>
     match heapPop x.unblocked with
-    | some (i, rest) => Topo.loop fuel (Topo.processOne { x with unblocked := rest } i true)
+    | some (i, rest) => Topo.loop s fuel (Topo.processOne s { x with unblocked := rest } i true)
     | none =>
       match heapPop x.weakBlocked with
-      | some (i, rest) => Topo.loop fuel (Topo.processOne { x with weakBlocked := rest } i true)
+      | some (i, rest) => Topo.loop s fuel (Topo.processOne s { x with weakBlocked := rest } i true)
       | none =>
         match x.cannotReorder with
-        | i :: cr => Topo.loop fuel (Topo.processOne { x with cannotReorder := cr } i (x.nodes.at i).after.isEmpty)
+        | i :: cr => Topo.loop s fuel (Topo.processOne s { x with cannotReorder := cr } i (x.after.get i).isEmpty)
         | [] => x
 
 /-- providers never reached: "dependencies not met, excluded", appended in listed order -/
-def Topo.leftOver (x : Topo) : List Nat := (List.range x.n).filter fun i => !x.done.contains i
+def Topo.leftOver (s : TopoS) (x : Topo) : List Nat := (List.range s.n).filter fun i => !x.done.contains i
+
+/-- the new order (positions in the input list) -/
+def Topo.order (s : TopoS) (x : Topo) : List Nat := x.out ++ x.leftOver s
 
 structure ReorderOut where
   order : List Nat        -- positions in the input list, in the new order
@@ -226,22 +247,31 @@ deriving Repr, Inhabited
 def reorderFuel (g : RGraph) (funcs : List CP) : Nat :=
   g.strong.length + g.weak.length + (funcs.foldl (fun a f => a + f.out.length + f.recv.length) 0) * 2 + funcs.length + 2
 
+def topoStatic (funcs : List CP) (g : RGraph) : TopoS :=
+  let ns := buildNodes g
+  { n := funcs.length, isReorder := fun i => (funcs.getD i default).reorder,
+    outOf := fun i => noNoType (funcs.getD i default).out, recvOf := fun i => noNoType (funcs.getD i default).recv,
+    downTypes := g.downTypes, upTypes := g.upTypes, before := ns.before, weakBefore := ns.weakBefore }
+
+/-- reorder.go:257-280: the state `topo.run` starts from -/
+def topoInit (funcs : List CP) (g : RGraph) (hasInit : Bool) : Topo :=
+  let ns := buildNodes g
+  let s := topoStatic funcs g
+  let x0 : Topo := { after := ns.after, weakAfter := ns.weakAfter, cannotReorder := g.cannotReorder }
+  if hasInit then
+    match funcs.find? (·.cls == .initFunc) with
+    | some f => (noNoType f.out).foldl (fun (x : Topo) t => match g.downTypes.lookup t with | some num => x.pushU s num | none => x) x0
+    | none => x0
+  else x0
+
 /-- `reorder` on positions; `none` when no provider is (still) marked Reorder: the list is kept -/
 def reorderIdx (ti : TyInfo) (funcs0 : List CP) (hasInit : Bool) : Option ReorderOut :=
   let funcs := clearReorder funcs0
   if !funcs.any (·.reorder) then none else
   let g := buildGraph ti funcs hasInit
-  let x0 : Topo :=
-    { n := funcs.length, isReorder := fun i => (funcs.getD i default).reorder,
-      outOf := fun i => noNoType (funcs.getD i default).out, recvOf := fun i => noNoType (funcs.getD i default).recv,
-      downTypes := g.downTypes, upTypes := g.upTypes, nodes := buildNodes g, cannotReorder := g.cannotReorder }
-  let x0 := if hasInit then
-      match funcs.find? (·.cls == .initFunc) with
-      | some f => (noNoType f.out).foldl (fun (x : Topo) t => match x.downTypes.lookup t with | some num => x.pushU num | none => x) x0
-      | none => x0
-    else x0
-  let x := Topo.loop (reorderFuel g funcs) x0
-  some { order := x.out ++ x.leftOver, gaveUp := x.leftOver, fuelOut := x.fuelOut }
+  let s := topoStatic funcs g
+  let x := Topo.loop s (reorderFuel g funcs) (topoInit funcs g hasInit)
+  some { order := x.order s, gaveUp := x.leftOver s, fuelOut := x.fuelOut }
 
 /-- `reorder` on the assembled list: the new list and the ids of the providers given up on -/
 def reorderModel (ti : TyInfo) (funcs : List CP) (hasInit : Bool) : List CP × List Nat × Bool :=
